@@ -1,0 +1,103 @@
+//go:build verif
+// +build verif
+
+// Verification hooks for C07, second file (build tag "verif"): the real
+// runScene / prompt on scenes whose first lines are mood changes without
+// actor, while nobody receives from the audition channel any more and the
+// prompter's context is cancelled (what promptDone() does after a foul
+// with -S, an evaluation error or a failing spotlight).  Add-only.
+
+package cmd
+
+import (
+	"context"
+	"time"
+
+	"github.com/knz/shakespeare/pkg/crdb/stop"
+	"github.com/knz/shakespeare/pkg/crdb/timeutil"
+)
+
+// VerifRunSceneMoodCancelled calls the real runScene on a scene made of
+// nLines mood-only lines, with an audition channel nobody reads, and cancels
+// its context after cancelAfterMs.
+func VerifRunSceneMoodCancelled(nLines, cancelAfterMs, timeoutMs int) (res VerifC07Result) {
+	stopper := stop.NewStopper()
+	defer stopper.Stop(context.Background())
+	pr := &prompter{
+		r:       &verifC07Reporter{start: timeutil.Now(), stopper: stopper},
+		cfg:     newConfig(),
+		stopper: stopper,
+		auditCh: make(chan auditableEvent), // nobody receives: the audition is busy or gone
+		collCh:  make(chan collectorEvent, 100),
+	}
+	var lines []scriptLine
+	for i := 0; i < nLines; i++ {
+		lines = append(lines, scriptLine{actor: nil, steps: []step{{typ: stepAmbiance, action: "red"}}})
+	}
+	ctx, cancel := context.WithCancel(context.Background())
+	defer cancel()
+	t0 := time.Now()
+	done := make(chan error, 1)
+	go func() { done <- pr.runScene(ctx, lines) }()
+	time.Sleep(time.Duration(cancelAfterMs) * time.Millisecond)
+	cancel()
+	res.Fired = true
+	select {
+	case err := <-done:
+		res.Returned = true
+		if err != nil {
+			res.Err = err.Error()
+		}
+	case <-time.After(time.Duration(timeoutMs) * time.Millisecond):
+	}
+	res.ElapsedMs = int64(time.Since(t0) / time.Millisecond)
+	return res
+}
+
+// VerifPromptMoodCancelled runs the real prompt() on the compiled play of
+// cfgText (typically mood-only scenes); a stand-in for the audition receives
+// `consume` events and then stops receiving; the context is cancelled after
+// cancelAfterMs.
+func VerifPromptMoodCancelled(cfgText string, consume, cancelAfterMs, timeoutMs int) (res VerifC07Result) {
+	cfg, err := verifParseString(cfgText, nil)
+	if err != nil {
+		res.SetupErr = err.Error()
+		return res
+	}
+	cfg.avoidTimeProgress = true
+	stopper := stop.NewStopper()
+	defer stopper.Stop(context.Background())
+	numRepeats := 0
+	auditCh := make(chan auditableEvent)
+	pr := &prompter{
+		r:          &verifC07Reporter{start: timeutil.Now(), stopper: stopper},
+		cfg:        cfg,
+		stopper:    stopper,
+		numRepeats: &numRepeats,
+		auditCh:    auditCh,
+		collCh:     make(chan collectorEvent, 1000),
+	}
+	go func() {
+		for i := 0; i < consume; i++ {
+			<-auditCh
+		}
+	}()
+	ctx, cancel := context.WithCancel(context.Background())
+	defer cancel()
+	t0 := time.Now()
+	done := make(chan error, 1)
+	go func() { done <- pr.prompt(ctx) }()
+	time.Sleep(time.Duration(cancelAfterMs) * time.Millisecond)
+	cancel()
+	res.Fired = true
+	select {
+	case err := <-done:
+		res.Returned = true
+		if err != nil {
+			res.Err = err.Error()
+		}
+	case <-time.After(time.Duration(timeoutMs) * time.Millisecond):
+	}
+	res.ElapsedMs = int64(time.Since(t0) / time.Millisecond)
+	return res
+}
